@@ -101,4 +101,10 @@ CLAIMED = {
               "Concurrent first opens of one file run with every source Read gated: the copy is paused at each chunk boundary while the others run; at most one read in flight, all opens return, all successful opens read complete bytes."),
         note="goroutines blocked on the path mutex are not observable: a drawn settle delay lets them run before the paused copy is released; fault sites are exhaustive per case, cases are sampled",
     ),
+    "C12": dict(
+        technique="property-based testing with rapid: generated logical trees rendered as tar archives (order, implicit directories, spellings, threshold sizes); model oracle = the logical tree; harness-gated destination calls released in a drawn order (schedule of the background writers)",
+        text=("Generated archives are unpacked into the default, an explicit mem.FS, an OpenFile+Chmod+Mkdir-only wrapper or os.FS destination whose calls are released one at a time in a generated order; after Done() the tar FS and the destination must equal the model exactly "
+              "(files: bytes and permission bits; explicit directories: bits; ancestors: kind; nothing else). Separate legs: 85-120 files (more than the small-buffer pool holds) and archives containing one escaping entry. Sampled exploration of inputs and schedules."),
+        note="schedules are owned at destination-call granularity only (what happens inside a destination call is free-running); directories with a later descendant entry are compared by kind only on in-memory destinations while known finding C12:dir-mode-lost-mkdirall-vs-mkdir reproduces (full check remains on os.FS)",
+    ),
 }
